@@ -4,5 +4,5 @@ From DC Require Import Crc Frame.
 Extraction Language OCaml.
 Extraction "model.ml"
   N.add N.mul N.sub N.div N.modulo N.ltb N.leb N.eqb N.of_nat N.to_nat
-  crc32 le32 of_le32 frame view_using legacy_using using_ok flip set_at wf_bytesb
+  crc32 le32 of_le32 frame view_using legacy_using using_ok flip wf_bytesb
   model_echo model_status.
